@@ -11,9 +11,14 @@ import (
 	"verif/oracle"
 )
 
+// named input types (the entry points accept ~string | ~[]byte)
+type Text string
+type Raw []byte
+
 type arg struct {
 	In   mc.Bin `json:"in"`
 	Rule int    `json:"rule"`
+	Max  *int   `json:"max_input_length,omitempty"` // nil = default 128
 	Prev *prev  `json:"previous_call,omitempty"` // history of depth 2: this call is made first, on the buffer that is then reused for In
 }
 
@@ -62,11 +67,20 @@ func typedFor(err error, bytesInput bool) bool {
 }
 
 // expect: accept?, value
-func expect(in []byte, rule int) (bool, uint64, bool) {
+func setup(a arg) {
+	roman.MaxInputLength = 128
+	if a.Max != nil {
+		roman.MaxInputLength = *a.Max
+	}
+}
+
+func expect(in []byte, rule int) (bool, uint64, bool) { return expectMax(in, rule, 128) }
+
+func expectMax(in []byte, rule, max int) (bool, uint64, bool) {
 	if len(in) == 0 {
 		return rule&int(roman.RuleDisableEmptyAsZero) == 0, 0, false
 	}
-	if len(in) > 128 {
+	if max != 0 && len(in) > max {
 		return false, 0, false
 	}
 	v := oracle.RomanParse(in)
@@ -81,7 +95,11 @@ func expect(in []byte, rule int) (bool, uint64, bool) {
 
 func probe(a arg) (string, string) {
 	in := []byte(a.In)
-	acc, val, amb := expect(in, a.Rule)
+	max := 128
+	if a.Max != nil {
+		max = *a.Max
+	}
+	acc, val, amb := expectMax(in, a.Rule, max)
 	if amb {
 		return "oracle_ambiguous", fmt.Sprintf("reference grammar is ambiguous on %q (harness defect)", in)
 	}
@@ -122,6 +140,20 @@ func probe(a arg) (string, string) {
 	if k, d := judge("DefaultParser[[]byte]", g, err); k != "" {
 		return k, d
 	}
+	// named string / byte-slice types are inputs like any other
+	gn, errn := roman.DefaultParser(Text(in), rule)
+	if k, d := judge("DefaultParser[named string]", gn, errn); k != "" && k != "untyped_error" {
+		return k, d
+	}
+	gn, errn = roman.DefaultParser(Raw(cp), rule)
+	if k, d := judge("DefaultParser[named []byte]", gn, errn); k != "" && k != "untyped_error" {
+		return k, d
+	}
+	for i, verr := range []error{roman.Valid(Text(in), rule), roman.Valid(Raw(cp), rule)} {
+		if (verr == nil) != acc {
+			return "valid_disagrees", fmt.Sprintf("Valid[named type %d](%q, rule=%d) = %v but the numeral is accepted=%v", i, in, a.Rule, verr, acc)
+		}
+	}
 	for i, verr := range []error{roman.Valid(string(in), rule), roman.Valid(cp, rule)} {
 		if (verr == nil) != acc {
 			return "valid_disagrees", fmt.Sprintf("Valid[%d](%q, rule=%d) = %v but the numeral is accepted=%v", i, in, a.Rule, verr, acc)
@@ -157,7 +189,7 @@ func main() {
 		"non-trivial = the reference evaluator accepts the text", func(r *mc.Run) {
 		r.Reset = reset
 		reset()
-		p := mc.NewProbe(r, "parse", nil, probe)
+		p := mc.NewProbe(r, "parse", setup, probe)
 		r.Assume("reference: M* then hundreds/tens/units, each group additive (optional five-symbol + up to four one-symbols) or subtractive (four/nine form), ASCII case folding, every split tried")
 		r.Assume("inputs longer than MaxInputLength=128 must be rejected (the error class is C18's)")
 		one := func(w *mc.W, s []byte) {
@@ -235,6 +267,30 @@ func main() {
 			})
 		})
 		r.Sample("mutant", arg{In: "MCMXCſ", Rule: 0})
+		for _, ml := range []int{0, 1000, 300, 5} {
+			ml := ml
+			r.Phase(fmt.Sprintf("MaxInputLength=%d: M-runs of every length 0..700 (3 case renderings) x 6 tails", ml), "complete grid", func() {
+				setup(arg{Max: &ml})
+				r.Parallel(701, 4, func(w *mc.W, i int64) {
+					for _, tail := range []string{"", "I", "xLiV", "CMXCIX", "IIIII", "dccclxxxviii"} {
+						for c := 0; c < 3; c++ {
+							run := []byte(strings.Repeat("M", int(i)))
+							for k := range run {
+								if c == 1 || c == 2 && k%2 == 0 {
+									run[k] = 'm'
+								}
+							}
+							s := append(run, tail...)
+							for rule := 0; rule < 2; rule++ {
+								w.Point()
+								p.Do(w, arg{In: mc.Bin(s), Rule: rule, Max: &ml})
+							}
+						}
+					}
+				})
+				reset()
+			})
+		}
 		r.Phase("M-runs of every length 0..140 (upper, lower, alternating case) followed by each of 14 tails: thousands counting and the length limit", "complete grid", func() {
 			r.Parallel(141, 1, func(w *mc.W, i int64) {
 				for _, tail := range []string{"", "I", "CM", "cmxcix", "DCCCLXXXVIII", "IIIII", "Z", "iv", "CD", "XL", "dccccLXXXXviiii", "MI", "IM", "D"} {
